@@ -107,6 +107,53 @@ pub fn roundtrip<T: CanonicalSerialize + CanonicalDeserialize>(
     }
 }
 
+
+/// round trip of the universal parameters, and keys trimmed from the deserialized parameters
+fn universal_params_section<S: Scheme>(sess: &Session<S>, ctx: &mut CaseCtx, sd: u64) -> Result<(), Failure> {
+    let pp2 = roundtrip(&*sess.keys.pp, S::NAME, "universal_params", ctx, sd)?;
+    {
+        {
+            let info = &sess.keys.info;
+            match guard(|| S::PC::trim(&pp2, info.supported, info.hiding, info.requested_bounds.as_deref())) {
+                Out::Ok((ck3, vk3)) => {
+                    ctx.label("keys_trimmed_from_deserialized_parameters");
+                    ctx.check(
+                        crate::util::ser(&ck3) == crate::util::ser(&sess.keys.ck) || S::NAME == "ipa",
+                        sig(P, S::NAME, "universal_params", "trimmed_key_differs_after_roundtrip"),
+                        || "the committer key trimmed from the deserialized parameters serializes differently from the original key".into(),
+                    )?;
+                    let g = &sess.groups[0];
+                    let order = sess.group_order(g);
+                    let values: Vec<S::F> = order.iter().map(|i| sess.true_value(*i, &g.point)).collect();
+                    if let Out::Ok(pr) = sess.open_idx(&order, &g.point, &mut sess.sponge(), sess.seeds[1]) {
+                        let cs: Vec<_> = order.iter().map(|i| &sess.comms[*i]).collect();
+                        let a = sess.check_idx(&order, &g.point, values.clone(), &pr, &mut sess.sponge(), sd);
+                        let mut r = rng(sd);
+                        let b = guard(|| S::PC::check(&vk3, cs, &g.point, values.clone(), &pr, &mut sess.sponge(), Some(&mut r)));
+                        ctx.check(accepted(&a) == accepted(&b), sig(P, S::NAME, "check", "decision_changes_with_keys_from_deserialized_parameters"), || {
+                            format!("original key {}, key trimmed from the deserialized parameters {}", a.describe(), b.describe())
+                        })?;
+                    }
+                    let qs = sess.query_set();
+                    let evals = sess.evaluations();
+                    if let Out::Ok(bp) = sess.batch_open(&qs, &mut sess.sponge(), sess.seeds[1]) {
+                        let a = sess.batch_check(sess.verifier_comms(), &qs, &evals, &bp, &mut sess.sponge(), sd);
+                        let mut r = rng(sd);
+                        let b = guard(|| S::PC::batch_check(&vk3, sess.verifier_comms(), &qs, &evals, &bp, &mut sess.sponge(), &mut r));
+                        ctx.check(accepted(&a) == accepted(&b), sig(P, S::NAME, "batch_check", "decision_changes_with_keys_from_deserialized_parameters"), || {
+                            format!("original key {}, key trimmed from the deserialized parameters {}", a.describe(), b.describe())
+                        })?;
+                    }
+                }
+                o => {
+                    return ctx.fail(sig(P, S::NAME, "universal_params", "deserialized_parameters_refuse_trim"), format!("trim on the deserialized parameters: {}", o.describe_nodebug()));
+                }
+            }
+        }
+    }
+    Ok(())
+}
+
 pub fn check_trait<S: Scheme>(c: &Scn, ctx: &mut CaseCtx) -> Result<(), Failure> {
     let tier = current_tier();
     let Ok(sess) = Session::<S>::build(c, tier) else {
@@ -119,15 +166,28 @@ pub fn check_trait<S: Scheme>(c: &Scn, ctx: &mut CaseCtx) -> Result<(), Failure>
     ctx.derived = Some(sess.describe());
     let sd = c.seeds[2];
 
-    // universal parameters are memoised across cases: round-trip each distinct value once per process
+    // universal parameters are memoised across cases: each distinct value is round-tripped and tested once per
+    // process (first case that meets it); the *verdict* is kept and given to every case that uses the same
+    // parameters, so that a case's outcome does not depend on which case met the parameters first.
     {
         use std::sync::{Mutex, OnceLock};
-        static SEEN: OnceLock<Mutex<std::collections::HashSet<u64>>> = OnceLock::new();
+        static SEEN: OnceLock<Mutex<std::collections::HashMap<u64, Result<(), (String, String)>>>> = OnceLock::new();
         let h = crate::util::fnv64(&crate::util::ser(&*sess.keys.pp)) ^ crate::util::fnv64(S::NAME.as_bytes());
-        let fresh = SEEN.get_or_init(|| Mutex::new(Default::default())).lock().unwrap().insert(h);
-        if fresh {
-            let _ = roundtrip(&*sess.keys.pp, S::NAME, "universal_params", ctx, sd)?;
-            ctx.label("universal_params_roundtripped");
+        let cached = SEEN.get_or_init(|| Mutex::new(Default::default())).lock().unwrap().get(&h).cloned();
+        let verdict = match cached {
+            Some(v) => v,
+            None => {
+                let mut inner = CaseCtx::new_like(ctx);
+                let r = universal_params_section::<S>(&sess, &mut inner, sd);
+                ctx.absorb(inner);
+                ctx.label("universal_params_roundtripped");
+                let v = r.map_err(|f| (f.sig, f.msg));
+                SEEN.get().unwrap().lock().unwrap().insert(h, v.clone());
+                v
+            }
+        };
+        if let Err((sg, msg)) = verdict {
+            return ctx.fail(sg, msg);
         }
     }
     let ck2 = roundtrip(&sess.keys.ck, S::NAME, "committer_key", ctx, sd)?;
@@ -301,7 +361,7 @@ pub fn spec() -> PropertySpec {
     units.push(PropUnit::new("C12:mlpst:roundtrip", 60, 480, 2, |_| ml_case().boxed(), check_ml));
     PropertySpec {
         id: "C12",
-        rule: "Every serializable artefact produced along a generated C01 transcript (universal parameters, committer key, verifier key, each commitment, commitment state and labelled polynomial, the single proof, the batch proof, a BatchLCProof; KZG10 powers/verifier key/parameters/commitment/randomness/proof; multilinear-PST parameters, keys, commitment, proof) is pushed through Compress in {yes,no} x Validate in {yes,no}. Oracles: len(ser(x)) == serialized_size; ser(deser(ser(x))) == ser(x); the value read from one compression mode re-serializes identically in the other; every proper prefix (all prefixes up to 320 bytes; up to 4 KiB the first 64, the last 64 and 64 generated cut points; 12+12+12 for larger encodings; proofs: up to 256 evenly spaced cuts) deserializes to Err (Ok or abort is a violation); check / batch_check / check_combinations with all-deserialized keys, commitments and proofs give the same decision as with the originals on the honest claim and reject one tampered claim; the deserialized committer key recommits identically; a KZG10 verifier key read without validation still pairs correctly (prepared elements). Non-trivial: the artefact carries an optional part (degree bound, hiding) or belongs to a scheme with hand-written (de)serializers (KZG10/Marlin, Sonic, PST13).",
+        rule: "Every serializable artefact produced along a generated C01 transcript (universal parameters, committer key, verifier key, each commitment, commitment state and labelled polynomial, the single proof, the batch proof, a BatchLCProof; KZG10 powers/verifier key/parameters/commitment/randomness/proof; multilinear-PST parameters, keys, commitment, proof) is pushed through Compress in {yes,no} x Validate in {yes,no}. Oracles: len(ser(x)) == serialized_size; ser(deser(ser(x))) == ser(x); the value read from one compression mode re-serializes identically in the other; every proper prefix (all prefixes up to 320 bytes; up to 4 KiB the first 64, the last 64 and 64 generated cut points; 12+12+12 for larger encodings; proofs: up to 256 evenly spaced cuts) deserializes to Err (Ok or abort is a violation); check / batch_check / check_combinations with all-deserialized keys, commitments and proofs give the same decision as with the originals on the honest claim and reject one tampered claim; the deserialized committer key recommits identically; keys trimmed from the *deserialized universal parameters* serialize like the original keys and give the same check / batch_check decisions; a KZG10 verifier key read without validation still pairs correctly (prepared elements). Non-trivial: the artefact carries an optional part (degree bound, hiding) or belongs to a scheme with hand-written (de)serializers (KZG10/Marlin, Sonic, PST13).",
         assumptions: vec!["streaming-KZG types are not serializable and are outside this property by construction"],
         units,
         watchdog_s: (1800, 7200),
